@@ -5902,8 +5902,197 @@ fn mode_dropprobe(work: &str) {
 	out.flush();
 }
 
+
+// ---------------------------------------------------------------------------------------------
+// run `shared`: the one-time migration of ONE store into an environment that ANOTHER Store handle
+// (another database name, other key spaces) already uses - as the node opens ChainStore and
+// PeerStore under one root.  The head-room computed before the copy has to count what the shared
+// environment already holds.
+// ---------------------------------------------------------------------------------------------
+fn shared_dump(store: &Store, dbs: &[Db]) -> String {
+	let mut items = vec![];
+	for db in dbs {
+		match collect_iter(store.iter(*db, kvpair)) {
+			Ok(v) => {
+				for (k, val) in v {
+					items.push((db_id(*db), k, val));
+				}
+			}
+			Err(_) => return "err".into(),
+		}
+	}
+	dump_fmt(&items)
+}
+
+fn mode_shared(work: &str, seed: u64, thorough: bool) {
+	const CHUNK: u64 = 1_048_576;
+	let mut out = Out::stdout();
+	let mut rng = Rng::new(seed ^ 0x5348_4152);
+	let first_dbs: Vec<Db> = vec![None, Some(b'A'), Some(b'B')];
+	let second_dbs: Vec<Db> = vec![None, Some(b'Z')];
+	// how much the first store commits before the second one migrates in (bytes), and the legacy size
+	let mut levels: Vec<(u64, u64)> = vec![
+		(300_000, 800_000),
+		(1_100_000, 800_000),
+		(1_400_000, 800_000),
+		(2_200_000, 800_000),
+		(2_500_000, 800_000),
+		(2_650_000, 800_000),
+		(2_500_000, 200_000),
+		(2_500_000, 1_700_000),
+	];
+	if thorough {
+		for k in 0..10u64 {
+			levels.push((200_000 + k * 450_000, 300_000 + (k % 4) * 500_000));
+		}
+	}
+	let (mut n_resized, mut n_cmp, mut oracle_fails) = (0u64, 0u64, 0u64);
+	let mut shapes: Vec<String> = vec![];
+	for (si, (fill, legacy)) in levels.iter().enumerate() {
+		let root = format!("{}/shared_{}", work, si);
+		let stage = format!("{}/shared_{}_stage", work, si);
+		let _ = std::fs::remove_dir_all(&root);
+		let _ = std::fs::remove_dir_all(&stage);
+		global::set_local_chain_type(ChainTypes::AutomatedTesting);
+		// ---- the first store: its own database name and key spaces, `fill` bytes committed
+		let first = Store::new(&root, None, Some("chain"), vec![b'A', b'B'], None, None).expect("first store");
+		let mut first_recs: BTreeMap<(u16, Vec<u8>), Vec<u8>> = BTreeMap::new();
+		let mut written = 0u64;
+		let mut i = 0u32;
+		while written < *fill {
+			let mut b = first.batch().expect("first batch");
+			// one 32 KB record per batch: a batch must fit into the tenth of the map that is free
+			// when the resize trigger has not fired yet
+			for _ in 0..1 {
+				let db = *rng.pick(&first_dbs);
+				let k = [b"f".to_vec(), i.to_be_bytes().to_vec()].concat();
+				let len = ((*fill - written).min(32_768)).max(1) as usize;
+				let v = vec![(i % 251) as u8; len];
+				b.put(db, &k, &v).expect("first put");
+				first_recs.insert((db_id(db), k), v);
+				written += len as u64;
+				i += 1;
+				if written >= *fill {
+					break;
+				}
+			}
+			b.commit().expect("first commit");
+		}
+		let first_digest = |st: &Store| -> String { hex(&fnv32(shared_dump(st, &first_dbs).as_bytes()).to_be_bytes()) };
+		let want_first = {
+			let items: Vec<(u16, Vec<u8>, Vec<u8>)> = first_recs.iter().map(|((d, k), v)| (*d, k.clone(), v.clone())).collect();
+			hex(&fnv32(dump_fmt(&items).as_bytes()).to_be_bytes())
+		};
+		out.line("kv new [def,90]", "ok");
+		out.line(&format!("kv other_set {}", want_first), "ok");
+		out.line("kv other_obs", &first_digest(&first));
+		// ---- the legacy environment of the second store
+		let mut recs: BTreeMap<Vec<u8>, Vec<u8>> = BTreeMap::new();
+		{
+			let st = Store::new(&stage, None, Some("peer"), vec![], None, None).expect("stage store");
+			let mut w = 0u64;
+			let mut j = 0u32;
+			while w < *legacy {
+				let mut b = st.batch().expect("stage batch");
+				let k = if j % 3 == 0 { [b"p".to_vec(), j.to_be_bytes().to_vec()].concat() } else { [b"Z:".to_vec(), j.to_be_bytes().to_vec()].concat() };
+				let len = ((*legacy - w).min(32_768)).max(1) as usize;
+				let v = vec![(j % 249) as u8; len];
+				b.put(None, &k, &v).expect("stage put");
+				b.commit().expect("stage commit");
+				recs.insert(k, v);
+				w += len as u64;
+				j += 1;
+			}
+		}
+		let new_env = std::path::Path::new(&root).join("multi_lmdb");
+		let old_env = std::path::Path::new(&root).join("peer_old");
+		std::fs::rename(std::path::Path::new(&stage).join("multi_lmdb"), &old_env).expect("move legacy env");
+		let parts: Vec<String> = recs.iter().map(|(k, v)| format!("{}={}", hex(k), valtok(v))).collect();
+		out.line(&format!("kv mig_old [{}]", parts.join(",")), "ok");
+		let to_meta = meta_of(&new_env);
+		let from_meta = meta_of(&old_env);
+		// ---- the second store migrates into the shared environment while the first handle is alive
+		let res = Store::new(&root, Some("peer_old"), Some("peer"), vec![b'Z'], None, None);
+		out.line("kv mig_run", if res.is_ok() { "ok" } else { "err" });
+		let shape = match (to_meta, from_meta, meta_of(&new_env)) {
+			(Some(tm), Some(fm), Some(am)) => {
+				out.line(&format!("kv mig_size {} {} {} {}", tm.1 * 4096, fm.1 * 4096, CHUNK, tm.0), &am.0.to_string());
+				n_cmp += 1;
+				if am.0 > tm.0 {
+					n_resized += 1;
+				}
+				format!("shared-env used {} of {} + legacy {} -> map {}", tm.1 * 4096, tm.0, fm.1 * 4096, am.0)
+			}
+			_ => "no meta".to_string(),
+		};
+		shapes.push(shape.clone());
+		match res {
+			Ok(second) => {
+				out.line("kv obs", &shared_dump(&second, &second_dbs));
+				out.line("kv mig_olddir", if old_env.exists() { "present" } else { "gone" });
+				out.line("kv other_obs", &first_digest(&first));
+				// nothing lost on either side
+				for (k, v) in recs.iter() {
+					let (db, kk) = if k.len() > 1 && k[1] == b':' { (Some(k[0]), k[2..].to_vec()) } else { (None, k.clone()) };
+					match second.get_ser::<RawVal>(db, &kk, None) {
+						Ok(Some(g)) if &g.0 == v => {}
+						other => {
+							oracle_fails += 1;
+							out.raw(&format!("#ORACLE-FAIL C18 shared-environment migration [{}]: record {} of the migrating store reads {:?}", shape, hex(k), other.map(|o| o.map(|x| x.0.len()))));
+							break;
+						}
+					}
+				}
+				// both keep writing
+				for round in 0..3u8 {
+					for (who, st, db) in [("first", &first, Some(b'A')), ("second", &second, Some(b'Z'))] {
+						let r = st.batch().and_then(|mut b| {
+							b.put(db, &[b'w', round, si as u8], &vec![round; 40_000])?;
+							b.commit()
+						});
+						if let Err(e) = r {
+							oracle_fails += 1;
+							out.raw(&format!("#ORACLE-FAIL C18 shared-environment migration [{}]: the {} store cannot write afterwards (round {}): {:?}", shape, who, round, e));
+						}
+					}
+				}
+			}
+			Err(e) => {
+				oracle_fails += 1;
+				out.raw(&format!(
+					"#ORACLE-FAIL C18 shared-environment migration refused: first store (db chain, key spaces A,B) committed {} bytes, legacy environment of {} bytes for the second store (db peer, key space Z), {}: Store::new -> {:?}",
+					written, legacy, shape, e
+				));
+				out.line("kv other_obs", &first_digest(&first));
+			}
+		}
+		drop(first);
+		let _ = std::fs::remove_dir_all(&root);
+		let _ = std::fs::remove_dir_all(&stage);
+	}
+	out.raw(&format!(
+		"#STAT [shared] scenarios={} head-room compared with the model={} migrations that enlarged the shared map first={} oracle failures={}; {}",
+		levels.len(), n_cmp, n_resized, oracle_fails, shapes.join("; ")
+	));
+	out.flush();
+}
+
+/// raw bytes as a `Readable` (the whole stored value)
+struct RawVal(Vec<u8>);
+impl Readable for RawVal {
+	fn read<R: Reader>(reader: &mut R) -> Result<RawVal, ser::Error> {
+		let mut v = vec![];
+		while let Ok(b) = reader.read_u8() {
+			v.push(b);
+		}
+		Ok(RawVal(v))
+	}
+}
+
 fn main() {
-	quiet_panics();
+	if std::env::var("VERIF_KV_LOUD").is_err() {
+		quiet_panics();
+	}
 	let args: Vec<String> = std::env::args().collect();
 	let mode = args.get(1).map(|s| s.as_str()).unwrap_or("prog");
 	let seed = seed_from_env();
@@ -5943,6 +6132,7 @@ fn main() {
 		"handles" => mode_handles(&work, seed, thorough),
 		"slowreader" => mode_slowreader(&work, seed, thorough),
 		"migrate" => mode_migrate(&work, seed, thorough),
+		"shared" => mode_shared(&work, seed, thorough),
 		"dropprobe" => mode_dropprobe(&work),
 		"newprobe" => mode_newprobe(&work, seed, thorough),
 		_ => {
